@@ -92,6 +92,14 @@ def check_edges(crate, rep, cfg):
             ok = True
     (rep.ok if ok else rep.bad)("C11.EDGES", "C11.EDGES:walk-reads-include_calls", walk.where(0),
                                 "the include walk enumerates Template.include_calls (the recorded edges)" + ("" if ok else " — VIOLATED"))
+    # must-pass-through: no path of the walk returns before the edge enumeration (no depth / size / cache shortcut that answers Ok early;
+    # the walk's depth is already bounded by the path-set guard, C11.WALK)
+    kb = [bb for bb, t in find_calls(walk, ["std::collections::HashMap::<K, V, S, A>::keys", "std::collections::HashMap::<K, V, S>::keys"])
+          if rrec.field_of_arg(tr, t["args"][0]) == ".include_calls"]
+    early = [r for r in walk.return_blocks() if r in walk.reach_from(0, removed_blocks=frozenset(kb))] if kb else [0]
+    (rep.ok if not early else rep.bad)("C11.EDGES", "C11.EDGES:walk:every-return-after-the-edge-enumeration", walk.where(early[0] if early else kb[0]),
+                                       "every path of the include walk from entry to a return passes through the enumeration of Template.include_calls"
+                                       + ("" if not early else " — VIOLATED: a return is reachable without looking at the node's includes (a cycle through this node is accepted)"))
 
 
 def check_walk(crate, rep, cfg):
